@@ -239,12 +239,24 @@ variable {{α : Type}} [Arith α]
 '''
 
 
+STUB_ALL = "--stub-all" in sys.argv
+MLEAN_TY = {"P": "α", "arrP": "Array α", "Int": "Int"}
+
+
+def stub(kname, ptypes, why):
+    sig = " ".join("(%s : %s)" % (p_, MLEAN_TY.get(t, "α")) for p_, t in ptypes.items())
+    return ("/-- `distances.%s` NOT TRANSLATED: %s -/\ndef %s (fuel : Nat) %s : Option α := none\n"
+            % (kname, why.replace("-/", "- /"), kname, sig))
+
+
 def main():
     parts, report = [PRELUDE.format(repo=REPO)], []
     path = os.path.join(REPO, "pynndescent", "distances.py")
     tree = ast.parse(open(path).read())
     for kname, ptypes in KERNELS:
         try:
+            if STUB_ALL:
+                raise Unsupported("stubbed: the generated file did not compile")
             fdef = find_def(tree, kname)
             if fdef is None:
                 raise Unsupported("function not found")
@@ -257,9 +269,12 @@ def main():
             else:
                 parts.append("/-- `distances.%s` -/\n" % kname + text + "\n")
             report.append((kname, "ok"))
-        except Unsupported as e:
-            parts.append("/- `distances.%s` NOT TRANSLATED: %s -/\n" % (kname, str(e).replace("-/", "- /")))
-            report.append((kname, "unsupported: %s" % e))
+        except Exception as e:  # noqa  (Unsupported, or the translator itself failing on an unforeseen shape)
+            # NOT dropped: a stub of the same signature with body `none`, so that the native driver (which links this file)
+            # still builds while every theorem saying the kernel returns `some ..` becomes unprovable
+            why = ("%s" % e) if isinstance(e, Unsupported) else "translator error %s: %s" % (type(e).__name__, e)
+            parts.append(stub(kname, dict(ptypes), why))
+            report.append((kname, "unsupported: %s" % why))
     parts.append("end Pynn.GenMetric\n")
     text = "\n".join(parts)
     old = open(OUT).read() if os.path.exists(OUT) else None
